@@ -56,7 +56,7 @@ func parseRFC3339Timestamp(timeStr string, timezoneCache map[string]*time.Locati
 			}
 			tzName, tzOffset := z.Zone()
 			location = time.FixedZone(tzName, tzOffset)
-			timezoneCache[tzStr] = location
+			timezoneCache[strings.Clone(tzStr)] = location // the key must not alias the (pooled, reused) record buffer
 		}
 	} else {
 		location = time.Local
